@@ -24,6 +24,12 @@ def opsEV (c : Option EVCtx) (args : List String) : Option (Option EVCtx × Stri
       match EV.update c.P c.k (← parseRat? p) (← parseRat? q) (← parseRat? h) (← parseBool? first) (← parseRat? tv) (← parseList? parseRat? socs) with
       | none => some (some c, "err")
       | some (k', p', q') => some (some ⟨c.P, k'⟩, s!"{showPark k'} {showRat p'} {showRat q'}")
+  | ["idx", parks], c => do
+      -- network / system level indices from `cars:accExp:accNum:accDur` per park
+      let ps ← (parks.splitOn ",").mapM (fun t => match t.splitOn ":" with
+        | [a, b, n, d] => do some ({ cars := ← parseRat? a, accExp := ← parseRat? b, accNum := ← parseRat? n, accDur := ← parseRat? d } : ParkStat)
+        | _ => none)
+      some (c, s!"{showRat (evInterruption ps)} {showRat (evDuration ps)}")
   | ["log", dt], some c => do
       let k' := logStats c.P c.k (← parseRat? dt)
       some (some ⟨c.P, k'⟩, showStats k')
